@@ -34,6 +34,10 @@ func main() {
 		cmdSched(args)
 	case "copybin":
 		cmdCopyBin(args)
+	case "segplay":
+		cmdSegPlay(args)
+	case "reader":
+		cmdSimple(args, func(b run.M, rng *rand.Rand) []run.M { return run.PlayReader(b, rng) })
 	case "writer":
 		cmdSimple(args, func(b run.M, rng *rand.Rand) []run.M { return run.PlayWriter(b) })
 	default:
@@ -279,4 +283,55 @@ func cmdSimple(args []string, play func(run.M, *rand.Rand) []run.M) {
 	}
 	tw.close()
 	fmt.Printf("played %d behaviours, %d trace lines\n", len(behs), tw.lines)
+}
+
+// cmdSegPlay: every behaviour is executed under five segmentations of the same
+// byte stream; each execution is validated like any other, and in addition
+// carries the digest of its transcript, which must not depend on the segmentation.
+func cmdSegPlay(args []string) {
+	fs := flag.NewFlagSet("segplay", flag.ExitOnError)
+	in := fs.String("in", "", "behaviours (ndjson)")
+	out := fs.String("out", "trace.ndjson", "abstract trace (ndjson)")
+	seed := fs.Int64("seed", 1, "seed")
+	progress := fs.String("progress", "", "progress file")
+	seedIndex := fs.Int("seedindex", 0, "seed index offset")
+	proj := fs.String("proj", "", "projection")
+	fs.Parse(args)
+	tw := newTraceWriter(*out)
+	var pf *os.File
+	if *progress != "" {
+		pf, _ = os.Create(*progress)
+	}
+	n := 0
+	eachBehaviour(*in, func(i int, b run.M) {
+		if pf != nil {
+			pf.Seek(0, 0)
+			fmt.Fprintf(pf, "%-12d\n", i)
+		}
+		raw, _ := json.Marshal(b)
+		var all []run.M
+		for mode := 0; mode <= 4; mode++ {
+			var bb run.M
+			json.Unmarshal(raw, &bb) //nolint: a fresh copy: concretisation enriches the behaviour
+			rng := rand.New(rand.NewSource(*seed*1000003 + int64(i+*seedIndex)))
+			evs, err := run.PlayMode(bb, rng, run.Projections[*proj], mode)
+			if err != nil {
+				die("behaviour %d: %v", i, err)
+			}
+			if mode > 0 {
+				// the session came up message by message but not under this segmentation: that IS the violation
+				for _, e := range evs {
+					if e["k"] == "dead" {
+						e["k"] = "segdead"
+					}
+				}
+			}
+			evs = append(evs, run.M{"k": "segrun", "stream": i, "first": mode == 0, "mode": mode, "dig": run.TranscriptDigest(evs)})
+			all = append(all, evs...)
+		}
+		tw.writeExec(all, i)
+		n++
+	})
+	tw.close()
+	fmt.Printf("played %d behaviours x 5 segmentations, %d trace lines\n", n, tw.lines)
 }
